@@ -4,6 +4,7 @@
 #include <stdlib.h>
 #include <string.h>
 #include <stdbool.h>
+#include <stdint.h>
 #include "verif.h"
 #include "express/scope.h"
 #include "express/variable.h"
